@@ -263,6 +263,10 @@ fn seq_recv(st: &mut SeqState, rng: &mut Rng, malformed: bool) -> Option<Op> {
   if !h.is_async {
     forms.push("recv_timeout0");
     w.push(12);
+    // the real timed form: in a sequential program only where it returns without waiting (else the scheduler has to
+    // fire the timeout, which costs the real time)
+    forms.push("recv_timeout");
+    w.push(4);
   }
   if st.f.batch {
     forms.extend(["try_recv_batch", "recv_batch", "try_recv_batch_mut", "recv_batch_mut"]);
@@ -270,11 +274,12 @@ fn seq_recv(st: &mut SeqState, rng: &mut Rng, malformed: bool) -> Option<Op> {
   }
   let mut form = forms[rng.weighted(&w)];
   let n = if form.contains("batch") { if malformed || rng.chance(6) { 0 } else { batch_k(rng, st.big) } } else { 1 };
-  let blocking = matches!(form, "recv" | "recv_batch" | "recv_batch_mut");
+  let blocking = matches!(form, "recv" | "recv_batch" | "recv_batch_mut" | "recv_timeout");
   let returns = st.avail(ri) > 0 || h.closed || st.senders_gone() || n == 0;
   if blocking && !returns {
     form = match form {
       "recv" => "try_recv",
+      "recv_timeout" => "recv_timeout0",
       "recv_batch" => "try_recv_batch",
       _ => "try_recv_batch_mut",
     };
@@ -492,6 +497,8 @@ pub fn receiver_ops_k(rng: &mut Rng, f: Fl, h: &str, is_async: bool, n: usize, o
     if !is_async {
       forms.push("recv_timeout0");
       w.push(14);
+      forms.push("recv_timeout");
+      w.push(4);
     }
     if f.batch {
       forms.extend(["recv_batch", "try_recv_batch", "recv_batch_mut", "try_recv_batch_mut"]);
@@ -977,7 +984,7 @@ pub fn make_case(seed: u64, idx: usize, mode: &str, tier: &str, flavours: &[Stri
   let thorough = tier == "thorough";
   // extended ("x") families — size / contention diversity (README "Extended generator families"): about a
   // quarter of the cases of the flavours that have batches; the rest is the classic generator
-  let ext = f.batch && rng.chance(if thorough { 30 } else { 26 });
+  let ext = (f.batch || (f.rdv && !f.asyn && mode == "conc" && rng.chance(35))) && rng.chance(if thorough { 30 } else { 26 });
   let mut fam = "";
   let programs = if ext {
     let (c, p, name) = crate::genx::gen_x(&mut rng, mode, &flavour, thorough);
